@@ -487,20 +487,42 @@ theorem addAt_toList (idx : List Nat) : ∀ (acc vals : List V3),
       simp only [scatterAdd, List.map_cons, List.zip_cons_cons, List.foldl_cons, Np.addAt, C17.addAt] at h ⊢
       rw [modify_toList, h]
 
-/-- OBLIGATION `compute_vertex_normals`: zeros, the three `np.add.at` passes over the columns of the triangle list,
-`_normalize` — the model's `vertexNormals` -/
+theorem zerosDT_rows (p : List (List Rat)) (dt : DType) : (zerosDT p dt).rows = zerosLike p := rfl
+theorem zerosDT_dt (p : List (List Rat)) (dt : DType) : (zerosDT p dt).dt = dt := rfl
+theorem addAtDT_dt (acc : Acc) (idx : List Nat) (vals : List (List Rat)) : (addAtDT acc idx vals).dt = acc.dt := rfl
+/-- on a floating point accumulator `np.add.at` adds (no truncation) -/
+theorem addAtDT_float (acc : Acc) (idx : List Nat) (vals : List (List Rat)) (h : acc.dt = .float) :
+    (addAtDT acc idx vals).rows = Np.addAt acc.rows idx vals := by
+  simp only [addAtDT, Np.addAt, h]
+
+theorem zerosDT_float (p : List (List Rat)) : zerosDT p .float = ⟨.float, zerosLike p⟩ := rfl
+theorem addAtDT_mk_float (rows : List (List Rat)) (idx : List Nat) (vals : List (List Rat)) :
+    addAtDT ⟨.float, rows⟩ idx vals = ⟨.float, Np.addAt rows idx vals⟩ := by
+  simp only [addAtDT, Np.addAt]
+
+/-- an INTEGER accumulator truncates what is added (what `np.zeros(points.shape, dtype=points.dtype)` gives for an
+integer `points` array): a unit normal with all components below 1 in magnitude leaves the row at zero — the
+mechanism of finding notes/fixes/C17-vertex-normals-integer-points.diff -/
+theorem addAtDT_int_truncates :
+    (addAtDT (zerosDT [[0, 0, 0]] .int) [0] [[-1/2, 1/2, 3/4]]).rows = [[0, 0, 0]] ∧
+    (addAtDT (zerosDT [[0, 0, 0]] .float) [0] [[-1/2, 1/2, 3/4]]).rows = [[-1/2, 1/2, 3/4]] := by decide +kernel
+
+/-- OBLIGATION `compute_vertex_normals` (floating point accumulator: float points, or the accumulator dtype taken from
+the face normals): zeros, the three `np.add.at` passes over the columns of the triangle list, `_normalize` — the
+model's `vertexNormals` -/
 theorem genComputeVertexNormals_eq (sqrt : Rat → Rat) (pts : List V3) (ts : List Tri)
     (h : RootZero sqrt (meshFaceNormalsRaw pts ts))
     (h' : RootZero sqrt (vertexNormalSumsCoded pts.length ts
       (faceNormals ((meshFaceNormalsRaw pts ts).map (fun n => sqrt (V3.normSq n))) pts ts))) :
-    genComputeVertexNormals sqrt (pts.map V3.toList) (rows ts) =
+    genComputeVertexNormals sqrt .float (pts.map V3.toList) (rows ts) =
       (vertexNormals ((meshFaceNormalsRaw pts ts).map (fun n => sqrt (V3.normSq n)))
         ((vertexNormalSumsCoded pts.length ts
           (faceNormals ((meshFaceNormalsRaw pts ts).map (fun n => sqrt (V3.normSq n))) pts ts)).map
             (fun n => sqrt (V3.normSq n))) pts ts).map V3.toList := by
   unfold genComputeVertexNormals
   try dsimp only
-  rw [genComputeFaceNormals_eq sqrt pts ts h, zerosLike_toList, (cols_rows ts).1, (cols_rows ts).2.1, (cols_rows ts).2.2]
+  rw [genComputeFaceNormals_eq sqrt pts ts h, (cols_rows ts).1, (cols_rows ts).2.1, (cols_rows ts).2.2]
+  simp only [zerosDT_float, addAtDT_mk_float, zerosLike_toList]
   rw [addAt_toList, addAt_toList, addAt_toList]
   exact genNormalize_eq sqrt _ h'
 
@@ -512,8 +534,8 @@ theorem genTriNormals_eq (sqrt : Rat → Rat) (s : NMesh (List Rat) C T) :
   try dsimp only
   by_cases h : s.ndims = 3 <;> simp [h]
 
-theorem genVertexNormals_eq (sqrt : Rat → Rat) (s : NMesh (List Rat) C T) :
-    genVertexNormals sqrt s = if s.ndims = 3 then .ok (genComputeVertexNormals sqrt s.points s.trilist) else .error .shape := by
+theorem genVertexNormals_eq (sqrt : Rat → Rat) (pdt : DType) (s : NMesh (List Rat) C T) :
+    genVertexNormals sqrt pdt s = if s.ndims = 3 then .ok (genComputeVertexNormals sqrt pdt s.points s.trilist) else .error .shape := by
   unfold genVertexNormals
   try dsimp only
   by_cases h : s.ndims = 3 <;> simp [h]
@@ -685,7 +707,7 @@ theorem src_vertex_normals (sqrt : Rat → Rat) (pts : List V3) (ts : List Tri) 
     (hc : SqrtOn sqrt (meshFaceNormalsRaw pts ts))
     (hc' : SqrtOn sqrt (vertexNormalSumsCoded pts.length ts
       (faceNormals ((meshFaceNormalsRaw pts ts).map (fun n => sqrt (V3.normSq n))) pts ts))) :
-    ∃ vn : List V3, genVertexNormals sqrt (gm3 pts ts cs tc) = .ok (vn.map V3.toList) ∧ vn.length = pts.length ∧
+    ∃ vn : List V3, genVertexNormals sqrt .float (gm3 pts ts cs tc) = .ok (vn.map V3.toList) ∧ vn.length = pts.length ∧
       ∀ v, v < pts.length →
         ∃ n, vn[v]? = some n ∧
           (incidentSum ts (faceNormals ((meshFaceNormalsRaw pts ts).map (fun n => sqrt (V3.normSq n))) pts ts) v ≠ V3.zero →
@@ -722,7 +744,7 @@ example : genTriAreas exSqrt (gm3 exG [(0, 1, 2)] ([] : List Unit) ([] : List Un
     genTriNormals exSqrt (gm3 exG [(0, 1, 2)] ([] : List Unit) ([] : List Unit)) = .ok [[-2/3, 2/3, -1/3]] ∧
     genTriNormals exSqrt (gm3 (exG.map (aff3 (M3.scalar 2) ⟨1, 0, 0⟩)) [(0, 1, 2)] ([] : List Unit) ([] : List Unit))
       = .ok [[-2/3, 2/3, -1/3]] ∧
-    genVertexNormals exSqrt (gm3 exG [(0, 1, 2)] ([] : List Unit) ([] : List Unit))
+    genVertexNormals exSqrt .float (gm3 exG [(0, 1, 2)] ([] : List Unit) ([] : List Unit))
       = .ok [[-2/3, 2/3, -1/3], [-2/3, 2/3, -1/3], [-2/3, 2/3, -1/3]] ∧
     genEdgeLengths exSqrt (gm3 exG [(0, 1, 2)] ([] : List Unit) ([] : List Unit)) = [3, 0, 3] := by decide +kernel
 example : genTriAreas exSqrt (gm2 [⟨0, 0⟩, ⟨4, 0⟩, ⟨1, 3⟩] [(0, 1, 2)] ([] : List Unit) ([] : List Unit)) = .ok [6] ∧
